@@ -631,9 +631,9 @@ MANIFEST_TEXT = {
                 note=_NOTE, technique='TLA+ Level-A model checking + LTS replay + TLC trace validation', ref='DESIGN.md 6 C01'),
     'C02': dict(level=_LVL + 'MemoryFS and PhysicalFS are both judged by the same deterministic Level A on the same LTS edges (and by the same cursor machines on the handle LTS), so agreement follows on the specified regime; in addition lock-step runs execute every call on MemoryFS and PhysicalFS side by side and TLC (conjunct agree) compares success/failure, the pinned classes and the complete observation of both, also where Level A leaves the outcome open (failed composites).',
                 note=_NOTE, technique='TLA+ Level-A model checking + LTS replay on mem and phys + TLC trace validation', ref='DESIGN.md 6 C02'),
-    'C03': dict(level=_LVL + 'Conjunct wellformed is evaluated by TLC on the observed record of every event over the unrestricted operation domain. For unbounded universes the TLA+ proof system proves that every Level-A operation preserves well-formedness (spec/proofs, ApplyWF) and that the overlay view is always well-formed (ViewWellFormedAlways).',
+    'C03': dict(level=_LVL + 'Conjunct wellformed is evaluated by TLC on the observed record of every event over the unrestricted operation domain. For unbounded universes the TLA+ proof system proves that every Level-A operation preserves well-formedness (spec/proofs, ApplyWF) and that the overlay view is always well-formed (ViewWellFormedAlways). Orphans produced by interleavings are covered by running the concurrent exploration of C16 (conjunct wellformed on every explored history).',
                 note=_NOTE, technique='TLA+ invariant WellFormed (model) + WellFormedObs on every trace event', ref='DESIGN.md 6 C03'),
-    'C05': dict(level=_LVL + 'Conjunct observers (ObserversAgree, WalkAgrees) relates the observers to each other on every event without reference to the model state.',
+    'C05': dict(level=_LVL + 'Conjunct observers (ObserversAgree, WalkAgrees) relates the observers to each other on every event without reference to the model state; the handle walks add the states a stale write handle can leave behind.',
                 note=_NOTE, technique='TLA+ ObserversAgree on every trace event', ref='DESIGN.md 6 C05'),
     'C07': dict(level=_LVL + 'Altroot configurations execute every call also as the twin call on P/q in a second identical world; TLC checks twin equality, confinement of the recorded inner calls and that the outside snapshot is unchanged. '
                 'Confinement against hostile path expressions: a catalogue of escapes ("..", absolute and doubled-slash segments, encoded dots, ...) plus a seeded sample of the argument strings TLC enumerated for C06 is joined onto the root of altroot filesystems '
